@@ -108,6 +108,19 @@ type UFDecl struct {
 
 var TS = NewTermStore()
 
+// fpAbstract: float arithmetic and int->float conversion as uninterpreted functions (mode `float fpuf`).
+var fpAbstract bool
+
+func I2FP(x *Term) *Term {
+	if fpAbstract {
+		return App("f.fromint."+x.Sort.String(), FPSort, x)
+	}
+	if x.Sort.Kind == SBV {
+		return mk("sbv2fp", FPSort, x)
+	}
+	return mk("i2fp", FPSort, x)
+}
+
 func NewTermStore() *TermStore {
 	return &TermStore{tab: map[string]*Term{}, Vars: map[string]*Sort{}, UFs: map[string]*UFDecl{}}
 }
@@ -528,6 +541,10 @@ func Arith(op string, a, b *Term) *Term {
 		return mk(op, s, a, b)
 	}
 	if s.Kind == SFP {
+		if fpAbstract {
+			// float arithmetic as uninterpreted functions over the FP sort (comparisons stay exact)
+			return App("f."+map[string]string{"+": "add", "-": "sub", "*": "mul", "/": "div"}[op], s, a, b)
+		}
 		return mk("fp."+map[string]string{"+": "add", "-": "sub", "*": "mul", "/": "div"}[op], s, a, b)
 	}
 	if isNum(a) && isNum(b) {
